@@ -1,5 +1,6 @@
 import EupsModel.Drv.Util
 import EupsModel.Model.Vro
+import EupsModel.Model.VroC10
 namespace EupsModel.Drv.C03
 open Lean EupsModel EupsModel.Drv EupsModel.Vro
 
@@ -27,7 +28,19 @@ def ctxOfJson (j : Json) : Except String Ctx := do
   let db ← (← jarr j "db").mapM stackOfJson
   let mode ← modeOf (← (← j.getObjVal? "mode").getStr?)
   let accepted ← (← jarr j "accepted").mapM fun b => b.getBool?
-  pure (mkCtx simpleOrd (← jstrs j "globalTags") db mode (← jstr j "native") accepted)
+  pure (mkCtx c10Ord (← jstrs j "globalTags") db mode (← jstrs j "loaded") accepted)
+
+/-- the guard of `Model/VroC10.lean`: the comparator accepts every declared version name and can
+evaluate every expression of the request on it; otherwise the model does not answer -/
+def guardOk (j : Json) (exprs : List (Option Str)) : Except String Bool := do
+  let db ← (← jarr j "db").mapM stackOfJson
+  let xs := exprs.filterMap fun x =>
+    match x with
+    | some v => (match isExpr v with | .ok true => some v | _ => none)
+    | none => none
+  pure (namesOk db xs)
+
+def unsupportedAns : Json := Json.mkObj [("out", "err"), ("err", "unsupported")]
 
 def reqOfJson (j : Json) : Except String Req := do
   let already ← (match j.getObjVal? "already" with
@@ -100,11 +113,14 @@ def handle : Handler := fun j => do
   match op with
   | "find" =>
     let C ← ctxOfJson j
-    pure (answer (find C (← reqOfJson (← j.getObjVal? "req")) (← jstrs j "vro")))
+    let r ← reqOfJson (← j.getObjVal? "req")
+    if !(← guardOk j [r.version, r.vexpr]) then return unsupportedAns
+    pure (answer (find C r (← jstrs j "vro")))
   | "resolve" =>
     let C ← ctxOfJson j
-    pure (answer (resolve C (← reqOfJson (← j.getObjVal? "req")) (← jbool j "keep") (← jstrs j "vro")
-      (← jstrs j "flavors")))
+    let r ← reqOfJson (← j.getObjVal? "req")
+    if !(← guardOk j [r.version, r.vexpr]) then return unsupportedAns
+    pure (answer (resolve C r (← jbool j "keep") (← jstrs j "vro") (← jstrs j "flavors")))
   | "selectVRO" | "selectVROTwice" =>
     match (if op == "selectVRO" then selectVRO else selectVROTwice) (← cfgOfJson (← j.getObjVal? "cfg")) (← argsOfJson (← j.getObjVal? "args")) with
     | .ok o => pure (Json.mkObj [("out", "ok"), ("vro", ofStrs o.vro), ("exact", o.exact)])
@@ -131,13 +147,22 @@ def handle : Handler := fun j => do
       pure ({ name := ← jstr l "name", version := ← jstrOpt l "version", vexpr := ← jstrOpt l "vexpr",
               lineVro := lv, lineTags := ← jstrs l "lineTags", lineKeep := ← jbool l "lineKeep",
               optional := ← jbool l "optional", already := already } : TableLine)
+    if !(← guardOk j (lines.flatMap fun l => [l.version, l.vexpr])) then return unsupportedAns
     let r := runTable C (← jbool j "keep") (← jstrs j "flavors") (← jstrs j "vro") lines
     let outJ := r.outs.map fun o => match o with
       | .setUp h => hitToJson (some h)
       | .failed => Json.null
     pure (Json.mkObj [("outs", Json.arr outJ.toArray), ("raised", r.raised), ("vro", ofStrs r.vro)])
-  | "cmp" => pure (Json.mkObj [("cmp", (simpleCmp (← jstr j "a") (← jstr j "b") : Int))])
-  | "match" => pure (Json.mkObj [("match", simpleMatch (← jstr j "v") (← jstr j "x"))])
+  | "cmp" =>
+    let a ← jstr j "a"
+    let b ← jstr j "b"
+    pure (Json.mkObj [("cmp", (c10Cmp a b : Int)), ("simple", (simpleCmp a b : Int)),
+      ("conv", VersionCmp.convName a && VersionCmp.convName b)])
+  | "match" =>
+    let v ← jstr j "v"
+    let x ← jstr j "x"
+    pure (Json.mkObj [("match", c10Match v x), ("simple", simpleMatch v x),
+      ("ok", match VersionCmp.versionMatch v x with | .ok _ => true | .error _ => false)])
   | _ => throw s!"unknown op {op}"
 
 end EupsModel.Drv.C03
